@@ -87,7 +87,7 @@ namespace detail
 
 		genIUType const prev = static_cast<genIUType>(1) << findMSB(value);
 		genIUType const next = prev << static_cast<genIUType>(1);
-		return (next - value) < (value - prev) ? next : prev;
+		return static_cast<genIUType>(next - value) < static_cast<genIUType>(value - prev) ? next : prev;
 	}
 
 	template<length_t L, typename T, qualifier Q>
